@@ -33,6 +33,8 @@ THEOREMS = [
     "Cppcheck.GccArgs.defines_normal_form",
     "Cppcheck.GccArgs.semicolon_define_counterexample",
     "Cppcheck.GccArgs.parseArgs_eq_spec_partial",
+    "Cppcheck.GccArgs.spec_of_render",
+    "Cppcheck.GccArgs.parseArgs_render",
     "Cppcheck.GccArgs.sepOpts_otherOk",
     "Cppcheck.GccArgs.slash_prefix_counterexample",
     "Cppcheck.GccArgs.parseArgs_eq_spec_counterexample",
@@ -347,6 +349,35 @@ def ends_bare(args):
 
 def show(args):
     return " ".join(json.dumps(a) for a in args)
+
+
+def opt_item(o):
+    h = lambda x: hx(enc(x, "latin-1"))
+    if o[0] in ("I", "isystem", "D", "U"):
+        return "%s:%d:%s" % ({"I": "I", "isystem": "S", "D": "D", "U": "U"}[o[0]], 1 if o[2] else 0, h(o[1]))
+    if o[0] == "std":
+        return "T:0:" + h(o[1])
+    if o[0] == "flag":
+        return "F:0:" + h(o[1])
+    if o[0] == "sep":
+        return "P:0:%s:%s" % (h(o[1]), h(o[2]))
+    return "O:0:" + h(o[1])
+
+
+def tie_render(ctx, res, R, vectors):
+    """the generator's `render` / `intended` are the Lean definitions `render` / `meaning` the theorems speak about"""
+    vs = [(a, o) for a, o in vectors if o is not None]
+    out = R.model([("render " + " ".join(opt_item(x) for x in o)).strip() for _, o in vs])
+    bad = []
+    for (args, opts), l in zip(vs, out):
+        m = re.match(r"^(.*) \| (I .*) \| wf ([01])$", l)
+        want_args = " ".join(hx(enc(a, "latin-1")) for a in args)
+        if not m or m.group(1).strip() != want_args or (opts_in_premise(opts) and m.group(2) != fs_line(intended(opts, "latin-1"))):
+            bad.append((args, l))
+        elif m.group(3) != "1" and opts_in_premise(opts):
+            res.count("generated-list-not-wf")
+    res.oblig("G-render:generator-equals-Lean-render-and-meaning", not bad, "translation",
+              "" if not bad else "%d lists differ; first: %s -> %s" % (len(bad), show(bad[0][0]), bad[0][1]))
 
 
 def tie_parse(ctx, res, R, vectors, name):
@@ -714,7 +745,6 @@ def tie_cli(ctx, res, R, ndocs, name):
                 wl = (b"Defines:" + core.unhx(m.group(5)), b"Undefines:" + b";".join(b" " + u for u in unl(m.group(6))),
                       b"Includes:" + b"".join(b" -I" + p for p in unl(m.group(3))))
                 if ok and c != wl:
-                    key = "slash-prefixed-path-arg" if any(a.startswith(SLASH) for a in neutralise(e["args"]) if False) else None
                     fails.append((e, c, wl, text))
     # classify CLI P_impl failures with the in-process classifier on the entry's vector
     for e, c, wl, text in fails:
@@ -784,6 +814,7 @@ def run(ctx, res):
         opts = gen_opts(rng)
         structured.append((render(opts), opts))
     hostile = [(gen_hostile_args(rng), None) for _ in range(n)]
+    tie_render(ctx, res, R, structured)
     tie_parse(ctx, res, R, structured, "parseArgs-structured")
     tie_parse(ctx, res, R, hostile, "parseArgs-hostile")
     lap("parse")
